@@ -39,4 +39,86 @@ theorem C19_needs_order : leadingTerms [[1], [3]] = [[1], [3]] := by decide
 -- non-vacuity: degree 4 polynomial with terms x^4, x^2, x^0
 example : leadingTerms [[4], [2], [0]] = [[4]] := by decide
 
+/-- the filter only ever appends -/
+theorem leadingFold_mono (ts : List (List Nat)) (kept : List (List Nat)) (t : List Nat) (h : t ∈ kept) :
+    t ∈ ts.foldl (fun kept t => if leAllOthers t kept then kept else kept ++ [t]) kept := by
+  induction ts generalizing kept with
+  | nil => simpa
+  | cons a as ih =>
+    simp only [List.foldl_cons]
+    apply ih
+    split
+    · exact h
+    · exact List.mem_append_left _ h
+
+theorem leadingFold_max (d : Nat) (ts : List Nat) (kept : List (List Nat))
+    (hk : ∀ k ∈ kept, ∃ e, k = [e] ∧ e ≤ d) (hts : ∀ e ∈ ts, e ≤ d) (hd : d ∈ ts ∨ [d] ∈ kept) :
+    [d] ∈ (ts.map fun e => [e]).foldl (fun kept t => if leAllOthers t kept then kept else kept ++ [t]) kept := by
+  induction ts generalizing kept with
+  | nil =>
+    rcases hd with hd | hd
+    · simp at hd
+    · simpa using hd
+  | cons a as ih =>
+    simp only [List.map_cons, List.foldl_cons]
+    by_cases hin : [d] ∈ kept
+    · exact leadingFold_mono _ _ _ (by split; exact hin; exact List.mem_append_left _ hin)
+    · rcases hd with hd | hd
+      · rcases List.mem_cons.mp hd with rfl | hd
+        · -- the maximum is being processed and is not yet kept: it cannot be ≤ all kept
+          have : leAllOthers [d] kept = false := by
+            unfold leAllOthers
+            cases kept with
+            | nil => simp
+            | cons k ks =>
+              simp only [List.isEmpty_cons, Bool.not_false, Bool.true_and]
+              apply Bool.eq_false_iff.mpr
+              intro hall
+              have hall' := List.all_eq_true.mp hall
+              obtain ⟨e, rfl, he⟩ := hk k (by simp)
+              have := hall' [e] (by simp)
+              simp [termLe] at this
+              have : e = d := Nat.le_antisymm he this
+              subst this
+              exact hin (by simp)
+          rw [this]
+          exact leadingFold_mono _ _ _ (by simp)
+        · refine ih _ ?_ (fun e he => hts e (by simp [he])) ?_
+          · intro k hk'
+            split at hk'
+            · exact hk k hk'
+            · rcases List.mem_append.mp hk' with h | h
+              · exact hk k h
+              · simp at h; exact ⟨a, h, hts a (by simp)⟩
+          · exact Or.inl hd
+      · exact absurd hd hin
+
+
+/-- whatever the ORDER in which `terms()` lists them: the largest exponent present is among the terms BigO reports —
+    the leading power is never dropped (no contract about the order needed) -/
+theorem C19_leading_power_never_dropped (d : Nat) (ts : List Nat) (hd : d ∈ ts) (hmax : ∀ e ∈ ts, e ≤ d) :
+    [d] ∈ leadingTerms (ts.map fun e => [e]) := by
+  unfold leadingTerms
+  exact leadingFold_max d ts [] (by simp) hmax (Or.inl hd)
+
+/-- `Poly.terms()` of a univariate polynomial lists each exponent of a non-zero term once, in decreasing order: the
+    result is exactly the first of them, the degree -/
+theorem C19_strictly_decreasing (d : Nat) (rest : List Nat) (h : List.Pairwise (· > ·) (d :: rest)) :
+    leadingTerms ((d :: rest).map fun e => [e]) = [[d]] := by
+  simpa using C19_univariate d rest (fun e he => Nat.le_of_lt (List.rel_of_pairwise_cons h he))
+
+/-- the result is never empty for a non-empty term list (a polynomial always has at least the term of its degree;
+    the zero polynomial has the single term of exponent 0): BigO never returns an empty sum -/
+theorem C19_result_nonempty (t : List Nat) (ts : List (List Nat)) : leadingTerms (t :: ts) ≠ [] := by
+  unfold leadingTerms
+  simp only [List.foldl_cons]
+  have h0 : (if leAllOthers t [] then ([] : List (List Nat)) else [] ++ [t]) = [t] := by simp [leAllOthers]
+  rw [h0]
+  intro h
+  have := leadingFold_mono ts [t] t (by simp)
+  rw [h] at this
+  simp at this
+
+example : [5] ∈ leadingTerms ([[1], [5], [3]]) := C19_leading_power_never_dropped 5 [1, 5, 3] (by simp) (by simp)
+
 end Bartiq
